@@ -244,6 +244,16 @@ def rule_stack(rep, res, entry=None, sym="bs"):
             continue
         if not has_sym(src.shape, sym) or src.shape.rank != 1:
             continue
+        inner = tuple(x for x in src.shape.axes[0] if x != sym)
+        if tgt.rank == 2 and tgt.axes[1] == (sym,) and tgt.axes[0] == inner and inner:
+            # (X, batch): rows are sources/channels, columns samples — for a sample-major vector this needs Fortran order
+            lay = ev.d["layout"]
+            st = True if lay == "F" else (False if lay == "C" else None)
+            rep.check("R-STACK", "regroup sample-major vector into columns", st, where=ev.loc, construct=ev.text(), entry=entry,
+                      config=res.config,
+                      msg="a sample-major stacked vector (x of sample 0, x of sample 1, …) is reshaped to (·, batch) in C order: the "
+                          "columns interleave entries of different samples" if st is False else "F order")
+            continue
         if tgt.rank == 2 and tgt.axes[0] == (sym,):
             lay = ev.d["layout"]
             st = True if lay == "C" else (False if lay == "F" else None)
@@ -255,12 +265,70 @@ def rule_stack(rep, res, entry=None, sym="bs"):
     for ev in res.events("np_repeat"):
         src, reps = ev.d["src"], ev.d["reps"]
         if ev.d["name"] == "repeat" and src.shape is not None and src.shape.rank == 1 and src.shape.axes[0] not in ((), None) \
-                and reps is not None and reps.tag("dim") is not None and sym in (reps.tag("dim") or ()):
+                and reps is not None and (sym in (reps.tag("dim") or ()) or sym in (reps.tag("dim_syms") or ())):
             rep.violated("R-STACK", "stacking of a per-sample vector", where=ev.loc, construct=ev.text(), entry=entry,
                          config=res.config,
                          msg="np.repeat repeats element-wise (x0,x0,…,x1,x1,…): not the sample-major stacking "
                              "(x,x,…) used by block_diag/ravel — entries land on the wrong source/channel for batch_size > 1")
+    # padded last batch: the padding is appended at the tail, so the valid rows are the leading ones
+    for ev in res.events("inplace"):
+        v = ev.d["value"]
+        if v.tag("suffix_slice") and sol_ids(v):
+            rep.violated("R-STACK", "valid rows of a padded batch are its leading rows", where=ev.loc, construct=ev.text(), entry=entry,
+                         config=res.config,
+                         msg="the rows copied back from the stacked solution are taken from its END (x[-k:]); the zero padding of the last "
+                             "batch is appended at the tail, so these are the padding / shifted samples")
     return nerr
+
+
+def rule_every_iteration_solves(rep, res, entry=None):
+    """R-TYPESTATE: no iteration of a solve loop is skipped before the solve (rows would keep their initial zeros)"""
+    entry = entry or res.entry
+    solves = [sv for sv in res.events("solve") if sv.loops]
+    for sv in solves:
+        loop = sv.loops[-1]
+        skips = [c for c in res.events("continue") if c.loops and c.loops[-1] == loop and c.fn is sv.fn and c.node.lineno < sv.node.lineno]
+        for c in skips:
+            und = [g[0] for g in c.guards if len(g) > 3 and not g[3]]
+            rep.violated("R-TYPESTATE", "every batch of the solve loop is solved", where=c.loc, construct=f"continue before {norm_text(sv.node)[:40]}",
+                         entry=entry, config=res.config,
+                         msg=f"under the guard {und} the iteration is skipped before problem.solve(): those rows keep the zeros of the result "
+                             f"buffer instead of the fitted intensities (result depends on which rows share a batch)")
+        if not skips:
+            rep.holds("R-TYPESTATE", "every batch of the solve loop is solved", where=sv.loc, construct=norm_text(sv.node)[:60], entry=entry,
+                      config=res.config)
+
+
+def rule_row_pick(rep, res, entry=None, origins=("W", "B", "self.W", "self.B")):
+    """R-ROWSEP: one fixed row of a per-sample array (W[0], B[0]) is used for every sample"""
+    entry = entry or res.entry
+    seen = set()
+    for ev in res.events("const_row_pick"):
+        b = ev.d["base"]
+        if not (set(origins) & set(b.flat().data)):
+            continue
+        k = (ev.loc, ev.text())
+        if k in seen:
+            continue
+        seen.add(k)
+        rep.violated("R-ROWSEP", "per-sample arrays are not reduced to one fixed row", where=ev.loc, construct=ev.text(), entry=entry,
+                     config=res.config,
+                     msg=f"row {ev.d['index']} of a per-sample array (samples × channels) is used for all samples: with per-sample weights/"
+                         f"targets every other row is fitted against the wrong data")
+
+
+def rule_iterator_reuse(rep, res, entry=None):
+    entry = entry or res.entry
+    seen = set()
+    for ev in res.events("iterator_reuse"):
+        k = (ev.loc, ev.text())
+        if k in seen:
+            continue
+        seen.add(k)
+        rep.violated("R-TYPESTATE", "one-shot iterators are not shared between loop iterations", where=ev.loc, construct=ev.text(), entry=entry,
+                     config=res.config,
+                     msg=f"a one-shot `{ev.d['kind']}` iterator created outside the loop is consumed inside it: it is exhausted after the first "
+                         f"sample, every later sample sees an empty sequence")
 
 
 def rule_sep(rep, res, entry=None, sym="bs"):
@@ -419,6 +487,11 @@ def rule_rowsep(rep, res, entry=None, allowed=None):
         for s in stores:
             v = s.d["val"].flat()
             bad = sorted(x for x in v.data if x.startswith("xsample@"))
+            if v.tag("filled_with_extremum") is not None and s.loops:
+                rep.violated("R-ROWSEP", "parameter value is row-local", where=s.loc, construct=s.text(), entry=entry, config=res.config,
+                             msg="every slot of this per-sample Parameter is filled with ONE extremum taken over the rows of the batch: the "
+                                 "tolerance/target of a row depends on the other rows that happen to share its batch")
+                continue
             rep.check("R-ROWSEP", "parameter value is row-local", not bad, where=s.loc, construct=s.text(), entry=entry,
                       config=res.config,
                       msg=(f"the value stored into this per-sample Parameter depends on a reduction over the sample axis "
@@ -463,6 +536,22 @@ def rule_purity(rep, res, entry=None, rule="R-PURITY", ignore_origins=()):
     return n
 
 
+def rule_dtype_casts(rep, res, entry=None, rule="R-DTYPE"):
+    """an input array is cast to a dtype derived from ANOTHER input (np.result_type(a, b), other.dtype): integer/bool data
+    then truncate coordinates or weights that are legitimately fractional"""
+    entry = entry or res.entry
+    seen = set()
+    for ev in res.events("dtype_cast"):
+        k = (ev.loc, ev.text())
+        if k in seen:
+            continue
+        seen.add(k)
+        rep.violated(rule, "no input is cast to another input's dtype", where=ev.loc, construct=ev.text(), entry=entry, config=res.config,
+                     msg=f"the value is converted to a dtype derived from {sorted(ev.d['dtype_src'])}: with integer/bool data there, fractional "
+                         f"values (sample points, wavelengths, grids) are silently truncated")
+    return len(seen)
+
+
 def rule_dtype(rep, res, entry=None, rule="R-DTYPE"):
     """R-DTYPE: a result buffer whose element type is inherited from a caller array (zeros_like/empty_like
     without dtype=) receives solver output: integer targets silently truncate the fitted intensities."""
@@ -474,6 +563,11 @@ def rule_dtype(rep, res, entry=None, rule="R-DTYPE"):
             continue
         v = ev.d["value"].flat()
         solved = bool(sol_ids(v))
+        if not solved and v.tag("floating"):
+            rep.violated(rule, "result buffer element type", where=ev.loc, construct=ev.text(), entry=entry, config=res.config,
+                         msg=f"a floating-point result (linear solve / quotient) is stored into a buffer whose dtype is inherited from the "
+                             f"caller's `{', '.join(sorted(src))}` (…_like without dtype=): integer-typed bounds/targets truncate it")
+            continue
         if solved:
             rep.violated(rule, "result buffer element type", where=ev.loc, construct=ev.text(), entry=entry,
                          config=res.config,
